@@ -1,3 +1,110 @@
 import KsiVerif.Util.DriverMain
-open KsiVerif
-def main : IO Unit := runDriver (fun i _ => "skip no-model-yet " ++ i)
+import KsiVerif.Model.Policy
+/-!
+Model driver for C05.  `verify <chain> <outcomes> => <status> <res> <err> <trace>`
+(see harness/exec_c05.c).  The spec oracle re-derives, from the implementation's own trace,
+the properties' sentences: invoked rules form a subsequence of the DFS order of the tried
+policies, no rule follows a FAIL/error, the reported result is the last invoked rule's.
+-/
+open KsiVerif KsiVerif.Policy
+
+def takeNum : List Char → Nat → (Nat × List Char)
+  | c :: cs, acc => if c.isDigit then takeNum cs (acc * 10 + (c.toNat - 48)) else (acc, c :: cs)
+  | [], acc => (acc, [])
+
+partial def parseList (cs : List Char) : List Rule × List Char :=
+  match cs with
+  | [] => ([], [])
+  | ')' :: rest => ([], rest)
+  | ',' :: rest => parseList rest
+  | 'b' :: rest =>
+    let (id, rest) := takeNum rest 0
+    let (more, rest) := parseList rest
+    (.basic (id % 64) :: more, rest)
+  | 'A' :: '(' :: rest =>
+    let (inner, rest) := parseList rest
+    let (more, rest) := parseList rest
+    (.and inner :: more, rest)
+  | 'O' :: '(' :: rest =>
+    let (inner, rest) := parseList rest
+    let (more, rest) := parseList rest
+    (.or inner :: more, rest)
+  | _ :: rest => parseList rest
+
+def parsePolicy (s : String) : PolicyRules :=
+  if s == "-" then none
+  else some (parseList (s.toList.drop 2)).1
+
+def resOf (n : Nat) : Res := if n == 0 then .ok else if n == 2 then .fail else .na
+def resNum : Res → Nat
+  | .ok => 0 | .na => 1 | .fail => 2
+
+def parseOutcomes (s : String) : List (Nat × Outcome) :=
+  if s == "-" then [] else
+  (s.splitOn ";").filterMap fun o =>
+    match (o.splitOn ":").map String.toNat? with
+    | [some id, some st, some rs, some er] => some (id % 64, ⟨st, resOf rs, er⟩)
+    | _ => none
+
+def mkρ (tbl : List (Nat × Outcome)) (id : Nat) : Outcome :=
+  -- later entries override earlier ones, as in the executor
+  match (tbl.reverse.find? (·.1 == id)) with
+  | some (_, o) => o
+  | none => ⟨0, .ok, 0⟩
+
+def showTrace (t : List Nat) : String :=
+  if t.isEmpty then "-" else ",".intercalate (t.map toString)
+
+def isSublist : List Nat → List Nat → Bool
+  | [], _ => true
+  | _ :: _, [] => false
+  | a :: as, b :: bs => if a == b then isSublist as bs else isSublist (a :: as) bs
+
+def handle (inp : String) (out : String) : String :=
+  match words inp with
+  | ["verify", chain, outs] =>
+    let ps := (chain.splitOn "|").map parsePolicy
+    let ρ := mkρ (parseOutcomes outs)
+    let v := verify ρ ps
+    let ms := match v.final with
+      | some (r, e) => s!"{v.status} {resNum r} {e} {showTrace v.trace}"
+      | none => s!"{v.status} - - {showTrace v.trace}"
+    -- spec oracle on the implementation's observable behaviour
+    let spec : Option String :=
+      match words out with
+      | [st, rs, er, tr] =>
+        let trace := if tr == "-" then [] else (tr.splitOn ",").filterMap String.toNat?
+        let dfsAll := (ps.map fun p => match p with | some rs => dfsList rs | none => []).flatten
+        if !isSublist trace dfsAll then some "rules-invoked-out-of-order"
+        else
+          -- no rule after a FAIL or an internal error *within a policy*; after a FAIL the only
+          -- thing that may follow is the fallback policy, after an error nothing at all
+          let rec chk (t : List Nat) : Option String :=
+            match t with
+            | [] => none
+            | [_] => none
+            | a :: b :: rest =>
+              if (ρ a).status ≠ 0 then some "rule-invoked-after-internal-error"
+              else chk (b :: rest)
+          match chk trace with
+          | some e => some e
+          | none =>
+            match trace.getLast? with
+            | none => if st == "0" then some "verdict-without-any-rule" else none
+            | some last =>
+              let o := ρ last
+              if st == "0" then
+                if o.status ≠ 0 then some "internal-error-of-last-rule-masked"
+                else if rs != toString (resNum o.res) || er != toString o.err then
+                  some "reported-result-is-not-the-last-rule's"
+                else none
+              else if o.status == 0 && v.status == 0 then some "error-status-without-failing-rule"
+              else none
+      | _ => some "short-impl-output"
+    let cls := s!"verify:{v.status}:{match v.final with | some (r, _) => toString (resNum r) | none => "-"}:p{v.policies}"
+    match spec with
+    | some why => s!"specfail {cls} {why}"
+    | none => if ms == out then s!"ok {cls}" else s!"diff {cls} model={ms}"
+  | _ => "skip unknown-op"
+
+def main : IO Unit := runDriver handle
